@@ -113,13 +113,19 @@ def code_guards(facts, inter, b):
     return out
 
 
-def translated(arg_terms, b, which):
-    """does one of the path arguments originate from get_path(<the op's path argument #which>)?"""
+def translated(arg_terms, b, which, facts=None, inter=None):
+    """does one of the path arguments originate from the translator applied to <the op's path argument #which>?
+    The translator is identified by role — a private inherent helper of the same backend type — never by name."""
     for a in arg_terms:
         for x in walk(a):
-            if x[0] == "call" and isinstance(x[1], str) and x[1].split("::")[-1] == "get_path" and len(x[2]) == 2:
+            if x[0] == "call" and isinstance(x[1], str) and len(x[2]) == 2:
                 k = x[2][1]
-                if k[0] == "arg" and k[1] == which:
+                if not (k[0] == "arg" and k[1] == which):
+                    continue
+                hb = inter.body_of_call(x) if inter is not None else None
+                if hb is not None and hb.impl and hb.impl["trait"] is None and b.impl and hb.impl["self_ty"] == b.impl["self_ty"]:
+                    return True
+                if hb is None and inter is None and x[1].split("::")[-1] == "get_path":
                     return True
     return False
 
@@ -146,12 +152,12 @@ def table_o_shape(facts, rep, rule, w):
             if eff == "fstat":
                 continue
             idxs = (1, 2) if op in ("copy_file", "move_file", "move_dir") else (1,)
-            okp = all(translated(args, b, i) for i in idxs[:1]) if len(idxs) == 1 else \
-                (translated(args[:1], b, 1) and translated(args[1:2], b, 2))
+            okp = all(translated(args, b, i, facts, inter) for i in idxs[:1]) if len(idxs) == 1 else \
+                (translated(args[:1], b, 1, facts, inter) and translated(args[1:2], b, 2, facts, inter))
             n += 1
-            rep.ob(rule, b.id, "%s: %s on get_path(path)" % (op, eff), okp,
+            rep.ob(rule, b.id, "%s: %s on translator(path)" % (op, eff), okp,
                    "translated path%s" % (" (src, dest in order)" if len(idxs) == 2 else "") if okp else
-                   "the std call does not take get_path(<own path argument>) %s" % ("in (src, dest) order" if len(idxs) == 2 else ""), line)
+                   "the std call does not take translator(<own path argument>) %s" % ("in (src, dest) order" if len(idxs) == 2 else ""), line)
     for op in NOT_OVERRIDDEN:
         n += 1
         rep.ob(rule, w.physical, "%s not overridden" % op, op not in ops,
